@@ -409,8 +409,16 @@ var c03Merge = hx.Register(&hx.Check[c03Case]{
 	Run:  c03Run,
 })
 
+var c03Hist = hx.Register(&hx.Check[histCase]{
+	Name: "c03-upsert-through-kept-selection",
+	Rule: "the history machine of c18-delete-replace-history with a selection of a whole list taken first and kept while zero to two entries are added to that list and zero to two removed through other selections; then entries are upserted through the kept selection (some that are there, the ones added or removed meanwhile, one never seen), followed by 1-8 ordinary operations; on reference, map- and slice-backed Reflect and Node stores; after every step the store equals the keyed deep merge of the model; non-trivial = an upsert through the kept selection happened",
+	Gen:  histGen("C03", []string{"rs", "reflect-map", "reflect-slice", "node-map", "node-slice", "node-slice"}),
+	Run:  histRun("C03"),
+})
+
 func TestC03(t *testing.T) {
 	s := hx.Begin(t, "C03")
 	defer s.End()
 	hx.Run(s, c03Merge, s.N(4000, 40000))
+	hx.Run(s, c03Hist, s.N(1500, 15000))
 }
